@@ -335,7 +335,7 @@ fn prepare(cwd: &Path, c: &Child) -> (Command, Option<PathBuf>, PathBuf, PathBuf
             prev_takes_path = a == "-o" || a == "--heap-log" || a == "--output-path";
             cmd.arg(abs);
         }
-    } else if c.stdout_tty && c.program.is_none() {
+    } else if c.stdout_tty && c.program.is_none() && Path::new("/usr/bin/script").exists() {
         let q = |a: &str| format!("'{}'", a.replace('\'', "'\\''"));
         let line = std::iter::once(q(&bin.to_string_lossy())).chain(c.args.iter().map(|a| q(a))).collect::<Vec<_>>().join(" ");
         cmd = Command::new("/usr/bin/script");
@@ -361,7 +361,7 @@ fn prepare(cwd: &Path, c: &Child) -> (Command, Option<PathBuf>, PathBuf, PathBuf
         cmd.env("FMLSIM_SEED", s.seed.to_string());
         if c.deleted_cwd { cmd.env("FMLSIM_TRACE", trace_path.to_string_lossy().to_string()); } else { cmd.env("FMLSIM_TRACE", &trace_name); }
         cmd.env("FMLSIM_CPU", CPU_LIMIT_S.to_string());
-        if c.program.is_some() || c.deleted_cwd || c.stdout_tty {
+        if c.program.is_some() || c.deleted_cwd || (c.stdout_tty && Path::new("/usr/bin/script").exists()) {
             // a wrapper (bash) runs the binary: only the binary is the system under test; the shell sees an undisturbed world
             cmd.env("FMLSIM_ONLY", "/fml");
         }
